@@ -5,6 +5,7 @@ mod header;
 mod meter;
 mod pkt;
 mod text;
+mod textapi;
 
 use std::io::{BufRead, Write};
 
@@ -28,6 +29,13 @@ fn run_line(line: &str) -> String {
         "RR" => pkt::run_rr(args),
         "BUILD" => pkt::run_build(args),
         "RT" => pkt::run_rt(args),
+        "NAMENEW" => textapi::run_namenew(args),
+        "SUFFIX" => textapi::run_suffix(args),
+        "CSTRNEW" => textapi::run_cstrnew(args),
+        "TXTTEXT" => textapi::run_txttext(args),
+        "TXTATTR" => textapi::run_txtattr(args),
+        "ATTRMAP" => textapi::run_attrmap(args),
+        "ESCAPE" => textapi::run_escape(args),
         "REPARSE" => pkt::run_reparse(args),
         "BUILDW" => pkt::run_buildw(args),
         "PARSEM" => pkt::run_parsem(args),
